@@ -8,7 +8,7 @@ import Mathlib.Tactic.Ring
 import Mathlib.Tactic.FieldSimp
 import Mathlib.Tactic.SplitIfs
 
-namespace Orb.Clip
+namespace Orb.Clip.C08
 open Orb Orb.Core Generated.Params
 
 set_option linter.unusedSectionVars false
@@ -449,4 +449,4 @@ theorem rclose_closed (r : Option (List (Pt α))) (out : List (Pt α)) (h : rclo
           rw [List.getLast?_append]
           simp
 
-end Orb.Clip
+end Orb.Clip.C08
